@@ -79,6 +79,8 @@ const EXPRS: &[(&str, &[&str], char)] = &[
     ("m.f(s)[n]", &["s", "n"], 's'),
     ("obj[s === 'x' ? 'k' : 'x']", &["obj.x", "obj.k", "s"], 's'),
     ("list[n].sub.length + c", &["n", "c"], 's'),
+    ("m.pickf(s)(a)", &["s", "a"], 's'),
+    ("m.pickf(s)(obj)", &["s", "obj.x"], 's'),
     ("m.wrap(a, obj).q.x", &["a", "obj.x"], 's'),
     ("m.wrap(obj, a).p.y.z + m.wrap(b, c).p", &["obj.y.z", "b"], 's'),
     ("(flag ? m.wrap(a, obj) : m.wrap(b, o2)).q.k", &["flag", "obj.k"], 's'),
@@ -111,6 +113,7 @@ const POSITIONS: &[(&str, &str, char, char, bool)] = &[
     ("text", "<view>{{ @E@ }}</view>", 's', '-', false),
     ("text-mixed", "<view>t-{{ @E@ }}-{{ c }}</view>", 's', '-', false),
     ("attr", "<view title=\"{{ @E@ }}\"/>", 's', '-', false),
+    ("attr-plus-plain-uses", "<view id=\"{{ s }}\" class=\"{{ a }}\" data-n=\"{{ n }}\" title=\"{{ @E@ }}\">{{ flag }}:{{ obj.x }}</view>", 's', '-', false),
     ("attr-mixed", "<view title=\"p {{ @E@ }} q\"/>", 's', '-', false),
     ("class", "<view class=\"k {{ @E@ }}\"/>", 's', '-', false),
     ("style", "<view style=\"color: {{ @E@ }}\"/>", 's', '-', false),
@@ -154,7 +157,7 @@ const POSITIONS: &[(&str, &str, char, char, bool)] = &[
 
 pub const MODES: &[&str] = &["exact", "coarse", "true", "batch", "single"];
 
-const WXS: &str = "<wxs module=\"m\">exports.f = function(a){ return 'f(' + a + ')' }; exports.j = function(a){ return JSON.stringify(a) }; exports.rev = function(a){ return a && a.slice ? a.slice().reverse() : a }; exports.wrap = function(a, b){ return {p: a, q: b} }; exports.pick = function(l, i){ return l[i] }</wxs>";
+const WXS: &str = "<wxs module=\"m\">exports.f = function(a){ return 'f(' + a + ')' }; exports.j = function(a){ return JSON.stringify(a) }; exports.rev = function(a){ return a && a.slice ? a.slice().reverse() : a }; exports.wrap = function(a, b){ return {p: a, q: b} }; exports.pick = function(l, i){ return l[i] }; exports.pickf = function(n){ return n === 'x' ? exports.f : exports.j }</wxs>";
 
 fn leaf(id: &str) -> (Value, Value, Value) {
     let l = LEAVES.iter().find(|l| l.0 == id).unwrap_or_else(|| panic!("unknown leaf {}", id));
